@@ -410,3 +410,18 @@ Fixpoint ex_joint (all tolpns : bool) (n : enode) (ps : list pod) : bool * enode
       | None => let '(_, n') := ex_joint all tolpns n t in (false, n')
       end
   end.
+
+(* ------------------------------------------------------------------ boolean specification (the oracle's parts) *)
+Definition none_fits_ex (c : cfg) (exempt : bool) (s : sched) (p : pod) : bool :=
+  forallb (fun x => negb (ex_accepts c exempt x p)) (s_ex s).
+Definition none_fits_in (c : cfg) (s : sched) (p : pod) : bool :=
+  forallb (fun x => negb (in_accepts c x p)) (s_in s).
+
+Definition none_fits_b (c : cfg) (exempt : bool) (s : sched) (p : pod) : bool := none_fits_ex c exempt s p && none_fits_in c s p.
+
+(* a placement does not name a node that is marked for deletion / deleting *)
+Definition target_not_deleting (nodes : list snode) (t : target) : bool :=
+  match t with
+  | TEx n => negb (existsb (fun s => String.eqb (sn_name s) n && sn_marked_for_deletion s) nodes)
+  | _ => true
+  end.
